@@ -23,4 +23,5 @@ EXTRAS = [
     lambda rep, fb, tier: __import__("vf.rules.lints", fromlist=["x"]).rule_zero_field_depths(rep, fb),
     lambda rep, fb, tier: __import__("vf.rules.lints", fromlist=["x"]).rule_ctor_roles(rep, fb),
     lambda rep, fb, tier: __import__("vf.rules.lints", fromlist=["x"]).rule_call_roles(rep, fb),
+    lambda rep, fb, tier: __import__("vf.rules.lints2", fromlist=["x"]).rule_rebased_copy(rep, fb),
 ]
